@@ -17,8 +17,11 @@
 package staking
 
 import (
+	"bytes"
+	"fmt"
 	"io"
 	"math/big"
+	"sort"
 	"sync/atomic"
 
 	"github.com/youchainhq/go-youchain/common"
@@ -96,7 +99,14 @@ func (e *EvidenceDoubleSign) DecodeRLP(c *rlp.Stream) error {
 	e.RoundIndex = data.RoundIndex
 	e.Signs = make(map[common.Hash][]byte)
 	for _, item := range data.Signs {
-		e.Signs[common.BytesToHash(item.Hash)] = item.Sign
+		if len(item.Hash) != common.HashLength {
+			return fmt.Errorf("rlp: invalid hash length %d in EvidenceDoubleSign", len(item.Hash))
+		}
+		h := common.BytesToHash(item.Hash)
+		if _, dup := e.Signs[h]; dup {
+			return fmt.Errorf("rlp: duplicate hash %x in EvidenceDoubleSign", h)
+		}
+		e.Signs[h] = item.Sign
 	}
 	return nil
 }
@@ -113,11 +123,18 @@ func (e EvidenceDoubleSign) EncodeRLP(w io.Writer) error {
 	}
 	data.Round = new(big.Int).Set(e.Round)
 	data.RoundIndex = e.RoundIndex
-	for h, s := range e.Signs {
+	// a map has no order: write the entries sorted by hash so that one
+	// object has one encoding (and one hash)
+	hashes := make([]common.Hash, 0, len(e.Signs))
+	for h := range e.Signs {
+		hashes = append(hashes, h)
+	}
+	sort.Slice(hashes, func(i, j int) bool { return bytes.Compare(hashes[i][:], hashes[j][:]) < 0 })
+	for _, h := range hashes {
 		data.Signs = append(data.Signs, struct {
 			Hash []byte
 			Sign []byte
-		}{Hash: h.Bytes(), Sign: s})
+		}{Hash: h.Bytes(), Sign: e.Signs[h]})
 	}
 	return rlp.Encode(w, []interface{}{data.Round, data.RoundIndex, data.Signs})
 }
